@@ -1,7 +1,9 @@
 package main
 
 // C15: `knut infer` edits only the placeholder account.
-//   op C15.infer  input "<orig|fixed> <hex placeholder> <hex training> <hex target>"
+//   op C15.infer  input "<fixed|orig> <hex placeholder> <hex training> <hex target>"
+//     first field: the model variant; "fixed" = the code since /repo e8bd689 (the default and what checks/c15.py
+//     passes), "orig" = the code before it (only for replaying old findings)
 //     observed  "OK <hex stdout> ; <tree of stdout | REPARSE-ERR> ; <det|nondet>"   (exit 0)
 //               "ERR <hex stdout>" (exit 1) | PANIC ... | HANG
 //   The binary is run 10 times on the same files; `nondet` if the outputs are not all equal.
@@ -209,7 +211,7 @@ func (g *c15gen) target() string {
 }
 
 func genC15(out *caseWriter, seed uint64, n int, args []string) error {
-	variant := "orig"
+	variant := "fixed"
 	if len(args) > 0 {
 		variant = args[0]
 	}
